@@ -46,6 +46,7 @@ func runC15(c *Ctx, r *Report) {
 	c15R15(c, r, "C15.R15")
 	c15Cursor(c, r, "C15.R16")
 	c15OptionalModuleLoaded(c, r, "C15.R22")
+	c15NumbersDecimal(c, r, "C15.R23")
 	c15Tables(c, r, "C15.R17")
 }
 
